@@ -245,7 +245,7 @@ func SchnorrSig(t *rapid.T, label string) *schnorr.Signature {
 		return sig
 	}
 	b := Blob(t, label, 64)
-	b[0] &= 0x3f // r < p
+	b[0] &= 0x3f  // r < p
 	b[32] &= 0x3f // s < n
 	sig, err := schnorr.ParseSignature(b)
 	if err != nil {
